@@ -65,6 +65,9 @@ def generate(repo):
                 raise Reject("compile: unsupported assignment " + dump(st)[:120])
         elif isinstance(st, ast.If) and dump(st.test).replace("(", "").startswith("env and not all") and len(st.body) == 1 and isinstance(st.body[0], ast.Raise) and not st.orelse:
             continue
+        elif isinstance(st, ast.If) and dump(st.test) == "parallel_interference_factor is not None and parallel_interference_factor != parallel_interference_factor" \
+                and len(st.body) == 1 and isinstance(st.body[0], ast.Raise) and not st.orelse:
+            continue           # .nan is rejected; the result is not changed
         elif isinstance(st, ast.Return) and isinstance(st.value, ast.Call) and dump(st.value.func) == "ExpRunDetails" and not st.value.keywords:
             ret = st.value
         else:
